@@ -2004,13 +2004,13 @@ Proof.
       * unfold cs in E. rewrite (phys_post pre c rest x) in E by (auto; lia).
         assert (Prest : sizes_pos rest).
         { unfold sizes_pos, cs in *. apply Forall_app in Psz. destruct Psz as [_ Q]. inversion Q; auto. }
-        destruct (phys_in rest _ b Prest ltac:(lia) E) as (c' & I' & B').
+        destruct (phys_in rest (x - cap_of pre - csize c) b Prest ltac:(lia) E) as (c' & I' & B').
         pose proof (pdisj_mid pre c rest PD c' (or_intror I')) as Dj. unfold disj, ext in Dj. cbn [fst snd] in Dj. unfold HDR in *. lia.
     + destruct (phys cs x) as [b|] eqn:E; auto. apply Fa. intros Hb'. unfold a in Hb'.
       destruct (Z.lt_ge_cases x (cap_of pre)).
       * assert (E' : phys pre x = Some b).
-        { destruct (phys_some pre Ppre x ltac:(lia)) as (b' & Eb'). rewrite (phys_app_l pre (c :: rest) x b' Eb') in E. congruence. }
-        destruct (phys_in pre _ b Ppre ltac:(lia) E') as (c' & I' & B').
+        { destruct (phys_some pre Ppre x ltac:(lia)) as (b' & Eb'). unfold cs in E. rewrite (phys_app_l pre (c :: rest) x b' Eb') in E. congruence. }
+        destruct (phys_in pre x b Ppre ltac:(lia) E') as (c' & I' & B').
         pose proof (pdisj_mid pre c rest PD c' (or_introl I')) as Dj. unfold disj, ext in Dj. cbn [fst snd] in Dj. unfold HDR in *. lia.
       * unfold cs in E. rewrite (phys_app pre c rest x) in E by (auto; lia). inversion E; subst b. unfold HDR in *. lia.
     + lia.
